@@ -143,6 +143,28 @@ func runEvalCase(c evalCase) *core.Failure {
 	return nil
 }
 
+// constPairExprs: every binary operator over every pair of constants (same and different types), bare and as a
+// sub-expression of a column expression; unary functions on every constant.
+func constPairExprs() []model.Expr {
+	consts := []model.Expr{model.IntE(6), model.FloatE(2.5), model.BoolE(true), model.StrE("a"), model.NilE()}
+	var out []model.Expr
+	for _, op := range []string{"+", "-", "*", "/", "&", "|", "!=", "nand", "sub2", "nope"} {
+		for _, a := range consts {
+			for _, b := range consts {
+				e := model.Call(op, a, b)
+				out = append(out, e, model.Call("+", model.ColE("i"), e), model.Call("+", e, model.ColE("f")), model.Call("+", model.ColE("s"), e),
+					model.Call("&", e, model.ColE("b")), model.Call("str", e), model.Call(op, e, b), model.Call(op, a, e))
+			}
+		}
+	}
+	for _, op := range []string{"abs", "neg", "int", "float", "bool", "str", "len", "upper", "lower", "!", "fill", "isnil", "lenor", "nope"} {
+		for _, a := range consts {
+			out = append(out, model.Call(op, a), model.Call("str", model.Call(op, a)))
+		}
+	}
+	return out
+}
+
 // typed expression enumeration ------------------------------------------------
 
 type exprAlphabet struct {
@@ -313,6 +335,17 @@ func c07Run(ctx *core.Ctx) {
 		model.Call("+", model.Call("fill", model.ColE("e")), model.StrE("!")), model.Call("+", model.ColE("e"), model.StrE("")), model.Call("+", model.StrE(""), model.ColE("e")),
 		model.ColE("colcol-temp-0"), model.Call("+", model.ColE("colcol-temp-0"), model.ColE("i")), model.Call("+", model.ColE("i"), model.Call("abs", model.ColE("colcol-temp-0"))))
 	runAll(wellTyped, "typed-depth2", ctx.Quick() == false)
+	// string constants that look like something else (a variable, a placeholder, a column or function name, a
+	// number, a keyword): a constant denotes itself in every row
+	var literal []model.Expr
+	for _, c := range []string{"$USD ", "$1", "$$", "$", "$s", "s", "i", "'s'", `"s"`, "+", "abs", "%d", "%s", "{0}", "null", "NULL", "nil", "true", "1", "1.5", "NaN", " ", "\x00", "ä", "a$", "@s", "#s", "${s}", "\\s", "s,i", "*"} {
+		literal = append(literal, model.StrE(c), model.Call("+", model.ColE("s"), model.StrE(c)), model.Call("+", model.StrE(c), model.ColE("s")),
+			model.Call("+", model.StrE(c), model.StrE("x")), model.Call("len", model.StrE(c)), model.Call("+", model.ColE("e"), model.StrE(c)),
+			model.Call("upper", model.StrE(c)), model.Call("+", model.ColE("s"), model.StrE(c), model.ColE("s")), model.Call("+", model.StrE(c), model.StrE(c), model.StrE(c)),
+			model.Call("+", model.Call("str", model.ColE("i")), model.StrE(c)), model.Call("lenor", model.StrE(c)), model.Call("fill", model.StrE(c)))
+	}
+	runAll(literal, "literal-constants", false)
+	runAll(constPairExprs(), "constant-pairs", false)
 	if !ctx.Quick() {
 		red := typedExprs(c07Alphabet(true), 3, in0)
 		var d3 []model.Expr
